@@ -716,3 +716,145 @@ Section Contract.
       + intros E H Hx Hn. injection E as <-. apply spea2_keeps_front_raw; auto.
   Qed.
 End Contract.
+
+(* ------------------------------------------------------------------ reflection of the oracle *)
+Lemma nodup_uid_iff l : nodup_uid l = true <-> NoDup (map uid l).
+Proof.
+  induction l as [|x l IH]; simpl; [split; [constructor|reflexivity]|].
+  rewrite andb_true_iff, negb_true_iff, IH. split.
+  - intros [H1 H2]. constructor; [|exact H2]. intros C. apply mem_uid_iff in C. congruence.
+  - intros H. inversion H as [|? ? Hn H']; subst. split; [|exact H'].
+    destruct (mem_uid x l) eqn:E; [|reflexivity]. apply mem_uid_iff in E. contradiction.
+Qed.
+
+Lemma fit_eqb_refl f : fit_eqb f f = true.
+Proof.
+  destruct f as [[q|] s|v w]; simpl; rewrite ?identical_refl; try reflexivity.
+  - assert (Qeq_bool q q = true) as -> by (apply Qeq_bool_iff; reflexivity). reflexivity.
+Qed.
+Lemma ind_eqb_refl x : ind_eqb x x = true.
+Proof. unfold ind_eqb, same_uid. rewrite Nat.eqb_refl, fit_eqb_refl. reflexivity. Qed.
+Lemma ind_eqb_uid x y : ind_eqb x y = true -> uid x = uid y.
+Proof. unfold ind_eqb. intros H. apply andb_true_iff in H as [H _]. apply same_uid_iff, H. Qed.
+
+(* subset_b decides "every output individual is (up to the representation of its rational
+   fitness values) an individual of the input" *)
+Lemma subset_b_iff out inp :
+  subset_b out inp = true <-> forall x, In x out -> exists y, In y inp /\ ind_eqb x y = true.
+Proof. unfold subset_b. rewrite forallb_forall. split; intros H x Hx; apply existsb_exists, H, Hx. Qed.
+
+Lemma subset_b_of_incl out inp : incl out inp -> subset_b out inp = true.
+Proof. intros I. apply subset_b_iff. intros x Hx. exists x. split; [apply I, Hx|apply ind_eqb_refl]. Qed.
+
+Lemma inds_eqb_refl l : inds_eqb l l = true.
+Proof. unfold inds_eqb. induction l as [|x l IH]; simpl; [reflexivity|]. rewrite ind_eqb_refl, IH. reflexivity. Qed.
+
+(* the tournament clauses of the oracle hold of the model's output for every oracle *)
+Theorem model_sel_holds_b_tournament o population pop_size :
+  sel_holds_b Tournament population pop_size (select Tournament o population pop_size) = true.
+Proof.
+  destruct (selection_contract_g better dom Tournament o population pop_size) as (out & E & I & H2 & H1).
+  unfold select. rewrite E. unfold sel_holds_b. rewrite (subset_b_of_incl _ _ I).
+  assert (A : implb (2 <=? n_distinct population)
+                    (nodup_uid out && Nat.eqb (length out) (Nat.min pop_size (n_distinct population))) = true).
+  { unfold implb. destruct (2 <=? n_distinct population) eqn:D; [|reflexivity]. apply Nat.leb_le in D.
+    destruct (H2 D) as [ND L]. cbn [negb orb]. apply andb_true_iff.
+    split; [apply nodup_uid_iff, ND|apply Nat.eqb_eq, L]. }
+  assert (B : implb (Nat.eqb (n_distinct population) 1) (Nat.eqb (length out) pop_size) = true).
+  { unfold implb. destruct (Nat.eqb (n_distinct population) 1) eqn:D; [|reflexivity]. apply Nat.eqb_eq in D.
+    destruct (H1 D) as (x & _ & ->). cbn [negb orb]. rewrite repeat_length. apply Nat.eqb_refl. }
+  rewrite A, B. reflexivity.
+Qed.
+
+(* ------------------------------------------------------------------ soundness of tour_admits *)
+Lemma firstn_sub {A} n (l : list A) x : In x (firstn n l) -> In x l.
+Proof. intros H. rewrite <- (firstn_skipn n l). apply in_or_app. left. exact H. Qed.
+
+Lemma fold_max_stays bt l m : (forall y, In y l -> bt y m = false) -> fold_left (max_step bt) l m = m.
+Proof.
+  induction l as [|y l IH]; simpl; intros H; [reflexivity|].
+  unfold max_step at 2. rewrite (H y (or_introl eq_refl)). apply IH. intros z Hz. apply H. right. exact Hz.
+Qed.
+
+(* an output accepted by the rank condition is produced by some run of the tournament loop:
+   there are groups (samples of the required size of the individuals not chosen so far) whose
+   max() winners are exactly the observed individuals *)
+Theorem tour_admits_sound bt gsize : 1 <= gsize -> forall out inds,
+  NoDup (map uid inds) -> tour_admits bt gsize inds out = true ->
+  exists tr, tour_rounds bt gsize inds tr /\ inds_eqb out (map snd tr) = true.
+Proof.
+  intros Hg. induction out as [|w out IH]; intros inds ND H; simpl in H.
+  - exists []. split; [constructor|reflexivity].
+  - destruct (find (ind_eqb w) inds) as [w'|] eqn:Ef; [|discriminate].
+    apply find_some in Ef as [Hw Ew]. apply andb_true_iff in H as [Hc Hr]. apply Nat.leb_le in Hc.
+    set (R := remove_first w' inds) in *. set (F := filter (fun x => negb (bt x w')) R) in *.
+    set (s := Nat.min gsize (length inds)) in *.
+    pose proof (remove_first_perm w' inds ND Hw) as P. fold R in P.
+    assert (ND' : NoDup (map uid R)).
+    { apply (Permutation_map uid) in P. apply Permutation_sym in P.
+      pose proof (Permutation_NoDup P ND) as H. simpl in H. inversion H; assumption. }
+    destruct (IH R ND' Hr) as (tr & Rd & Eq).
+    assert (Ls : 1 <= s) by (subst s; destruct inds; [destruct Hw|simpl; lia]).
+    set (g := w' :: firstn (s - 1) F).
+    exists ((g, w') :: tr). split.
+    + constructor.
+      * exists (skipn (s - 1) F ++ filter (fun x => negb (negb (bt x w'))) R).
+        subst g. simpl. eapply perm_trans; [|exact P]. apply perm_skip.
+        rewrite app_assoc, firstn_skipn. apply filter_partition_perm.
+      * subst g. simpl. rewrite firstn_length. lia.
+      * subst g. simpl. f_equal. change (fun m y => if bt y m then y else m) with (max_step bt).
+        apply fold_max_stays. intros y Hy. apply firstn_sub in Hy.
+        subst F. apply filter_In in Hy as [_ Hy]. apply negb_true_iff, Hy.
+      * exact Rd.
+    + unfold inds_eqb in *. cbn [map snd forallb2]. rewrite Ew. exact Eq.
+Qed.
+
+(* ------------------------------------------------------------------ completeness of tour_admits *)
+Lemma filter_perm_length {A} (p : A -> bool) l l' :
+  Permutation l l' -> length (filter p l) = length (filter p l').
+Proof.
+  induction 1; simpl; auto; try congruence.
+  - destruct (p x); simpl; congruence.
+  - destruct (p x), (p y); reflexivity.
+Qed.
+
+Lemma filter_all_true {A} (p : A -> bool) l : (forall x, In x l -> p x = true) -> filter p l = l.
+Proof.
+  induction l as [|x l IH]; simpl; intros H; [reflexivity|].
+  rewrite (H x (or_introl eq_refl)), IH; [reflexivity|]. intros y Hy. apply H. right. exact Hy.
+Qed.
+
+Lemma find_self inds b : NoDup (map uid inds) -> In b inds -> find (ind_eqb b) inds = Some b.
+Proof.
+  intros ND Hb. destruct (find (ind_eqb b) inds) as [w|] eqn:E.
+  - apply find_some in E as [Hw E]. f_equal. symmetry.
+    eapply NoDup_map_inj; eauto. apply ind_eqb_uid, E.
+  - exfalso. pose proof (find_none _ _ E b Hb) as C. rewrite ind_eqb_refl in C. discriminate.
+Qed.
+
+(* on a strict weak order every run of the tournament loop passes the rank condition: the
+   relation rejects no behaviour of the mechanism *)
+Theorem tour_admits_complete bt gsize inds tr :
+  NoDup (map uid inds) -> swo_on bt inds -> tour_rounds bt gsize inds tr ->
+  tour_admits bt gsize inds (map snd tr) = true.
+Proof.
+  intros ND S R. induction R as [|inds g b tr [rest P] Lg Em R IH]; [reflexivity|].
+  assert (Ig : incl g inds) by (eapply Permutation_app_incl, P).
+  destruct (py_max_best bt g b (swo_on_incl _ _ _ Ig S) Em) as [Hbg Hbest].
+  assert (Hb : In b inds) by (apply Ig, Hbg).
+  cbn [map snd tour_admits]. rewrite (find_self inds b ND Hb).
+  pose proof (remove_first_perm b inds ND Hb) as Pb.
+  assert (ND' : NoDup (map uid (remove_first b inds))).
+  { apply (Permutation_map uid) in Pb. apply Permutation_sym in Pb.
+    pose proof (Permutation_NoDup Pb ND) as H. simpl in H. inversion H; assumption. }
+  rewrite (IH ND' (swo_on_incl _ _ _ (remove_first_incl b inds) S)), andb_true_r.
+  apply Nat.leb_le. rewrite <- Lg.
+  destruct (in_split _ _ Hbg) as (g1 & g2 & Eg).
+  assert (P0 : Permutation ((g1 ++ g2) ++ rest) (remove_first b inds)).
+  { apply (Permutation_cons_inv (a := b)). eapply perm_trans; [|apply Permutation_sym, Pb].
+    eapply perm_trans; [|exact P]. rewrite Eg. rewrite <- !app_assoc. simpl. apply Permutation_middle. }
+  rewrite <- (filter_perm_length _ _ _ P0), filter_app, app_length.
+  rewrite (filter_all_true _ (g1 ++ g2)).
+  - rewrite Eg, !app_length. simpl. lia.
+  - intros x Hx. apply negb_true_iff, Hbest. rewrite Eg. apply in_app_or in Hx as [Hx|Hx]; apply in_or_app; [left|right; right]; exact Hx.
+Qed.
